@@ -315,7 +315,8 @@ func storeOp(c *Ctx, op string, a map[string]string) {
 			timecache.VerifSetClock(old + 1e9)
 			fired := false
 			redis.VerifHookBeforeDo(rig.all[0], func(cmd string) {
-				if cmd == "HDEL" && !fired {
+				// right before the removal: the single HDELs of the collector as it was, the EXEC of its MULTI … HDEL … group now
+				if (cmd == "HDEL" || cmd == "EXEC") && !fired {
 					fired = true
 					_ = rig.all[1].PutSeeder(ih, p) // the re-announce, at clock old+1s, i.e. after the cutoff
 				}
@@ -333,6 +334,34 @@ func storeOp(c *Ctx, op string, a map[string]string) {
 				return "n/a"
 			}
 			return redisSched(a["ih"], a["progs"], a["sched"])
+		case "st.redis_gc_double":
+			// two tracker instances share the Redis and each runs its own expiry loop: instance 0's pass is parked right
+			// before the transaction that unregisters an emptied swarm, instance 1 runs a whole pass, instance 0 goes on
+			if rig.kind != "redis" || len(rig.all) < 2 {
+				return "needs-two-redis-instances"
+			}
+			ih := bittorrent.InfoHashFromBytes(unhx(a["ih"]))
+			p := peerFromKey(unhx(a["pk"]))
+			if err := rig.all[0].PutSeeder(ih, p); err != nil {
+				return "err"
+			}
+			if err := rig.all[0].DeleteSeeder(ih, p); err != nil {
+				return "err"
+			}
+			fired := false
+			redis.VerifHookBeforeDo(rig.all[0], func(cmd string) {
+				if cmd == "EXEC" && !fired {
+					fired = true
+					_ = redis.VerifCollectGarbage(rig.all[1], rig.clock)
+				}
+			})
+			err := redis.VerifCollectGarbage(rig.all[0], rig.clock)
+			redis.VerifHookBeforeDo(rig.all[0], func(string) {})
+			if err != nil {
+				return "err"
+			}
+			redis.VerifPopulateProm(rig.all[0])
+			return fmt.Sprintf("second_pass_inside_first=%s infohashes=%d", b01(fired), gaugeVal(storage.PromInfohashesCount))
 		case "st.dump":
 			return storeDump()
 		case "st.totals":
@@ -518,10 +547,14 @@ func runStore(c *Ctx, pf storeProfile) {
 		}
 		storeOp(c, "st.dump", map[string]string{})
 		storeOp(c, "st.totals", map[string]string{"inst": "0"})
-		if pf.name == "C05" && kind == "redis" && insts >= 2 {
-			// last operation of the sequence: the state is not compared afterwards
-			fresh := r.Bytes(20)
-			storeOp(c, "st.redis_gc_race", map[string]string{"ih": hx(fresh), "pk": hx(u.peers[0])})
+		if (pf.name == "C05" || pf.name == "C17") && kind == "redis" && insts >= 2 {
+			// scripted interleavings of an expiry pass with another instance (D4: a re-announce right before the removal;
+			// D16: a second instance's pass right before the first one unregisters an emptied swarm), state compared after
+			storeOp(c, "st.redis_gc_race", map[string]string{"ih": hx(r.Bytes(20)), "pk": hx(u.peers[0])})
+			storeOp(c, "st.dump", map[string]string{})
+			storeOp(c, "st.redis_gc_double", map[string]string{"ih": hx(r.Bytes(20)), "pk": hx(u.peers[0])})
+			storeOp(c, "st.dump", map[string]string{})
+			storeOp(c, "st.totals", map[string]string{"inst": "0"})
 		}
 	}
 }
